@@ -3,7 +3,7 @@ with scripted rail actions, a prompt-recording fake LLM and deterministic embedd
 
 A *case* (JSON):
   {"ver": "1.0"|"2.x", "dialog": bool, "exc": bool, "in": [rail ids in configured order], "out": [rail ids],
-   "carry": "messages"|"state",
+   "carry": "messages"|"state", "gen": "std"|"pt"|"ptp"|"ptfn"|"single" (1.0 generation mode), "front": bool,
    "turns": [{"user": str, "bot": str, "intent": "flow"|"free"|"act",
               "vin":  [[id, verdict]..], "vout": [[id, verdict]..], "act_fault": bool, "retr_fault": bool}]}
   verdict = "a" (accept) | "r" (reject) | ["w", text] (rewrite) | "f" (the rail's action raises)
@@ -84,12 +84,26 @@ models:
     engine: fakeemb
     model: fake
 enable_rails_exceptions: {exc}
+passthrough: {passthrough}
 rails:
   input:
     flows: [{inflows}]
   output:
     flows: [{outflows}]
+  dialog:
+    single_call:
+      enabled: {single}
 """
+
+# Colang 1.0 generation modes ("gen" of a case) through which a user message reaches an LLM prompt:
+#   std    - task prompts rendered from the event history (general / user intent / next steps / bot message)
+#   pt     - `passthrough: true`, request made with messages=[...] (chat mode): the request itself is the prompt
+#   ptp    - `passthrough: true`, request made with prompt="..." (completion mode, no history)
+#   ptfn   - `passthrough: true` and a `passthrough_fn` (as RunnableRails installs) instead of the LLM call
+#   single - `rails.dialog.single_call.enabled`: one generate_intent_steps_message call
+PT_MODES = ("pt", "ptp", "ptfn")
+FRONT_SYSTEM = {"role": "system", "content": "SYSTEM-FRONT keep answers short"}
+FRONT_CONTEXT = {"role": "context", "content": {"verif_front_marker": "ctx"}}
 
 YAML_V2 = """
 colang_version: "2.x"
@@ -318,7 +332,12 @@ def _make_llm():
             if task == "generate_next_steps":
                 return "  bot respond free"
             if task == "generate_bot_message":
+                if _STATE.get("gen") in PT_MODES:
+                    return t["bot"]  # passthrough: the completion is used as it is
                 return '  "' + t["bot"] + '"'
+            if task == "generate_intent_steps_message":
+                i = t.get("intent", "free")
+                return f'  ask {i}\nbot respond {i}\n  "' + t["bot"] + '"'
             if task == "general":
                 return t["bot"]
             if task == "generate_value_from_instruction":
@@ -343,7 +362,7 @@ def _q(s):
 
 
 def config_key(case):
-    return (case["ver"], bool(case["dialog"]), bool(case["exc"]), tuple(case["in"]), tuple(case["out"]), bool(case.get("sc")))
+    return (case["ver"], bool(case["dialog"]), bool(case["exc"]), tuple(case["in"]), tuple(case["out"]), bool(case.get("sc")), case.get("gen", "std") if case["ver"] == "1.0" else "std")
 
 
 def get_rails(case):
@@ -360,6 +379,8 @@ def get_rails(case):
         if case["ver"] == "1.0":
             yaml = YAML_V1.format(
                 exc="True" if case["exc"] else "False",
+                passthrough="True" if case.get("gen") in PT_MODES else "False",
+                single="True" if case.get("gen") == "single" else "False",
                 inflows=", ".join(f'"{f}"' for f in inflows),
                 outflows=", ".join(f'"{f}"' for f in outflows),
             ) + (YAML_SC if sc else "")
@@ -380,6 +401,15 @@ def get_rails(case):
         rails.register_action(dialog_act, "dialog_act" if case["ver"] == "1.0" else "DialogActAction")
         if case["ver"] == "1.0":
             rails.register_action(retrieve_relevant_chunks, "retrieve_relevant_chunks")
+            if case.get("gen") == "ptfn":
+                replaced = "generate_bot_message" if case["dialog"] else "general"
+
+                async def passthrough_fn(context: dict, events: list):
+                    # stands in for the LLM call; like RunnableRails' function it reads the text from the context
+                    _STATE["rec"].append(["llm", replaced, str((context or {}).get("user_message"))])
+                    return _STATE["script"]["bot"], {"passthrough": True}
+
+                rails.llm_generation_actions.passthrough_fn = passthrough_fn
         tm = rails.runtime.llm_task_manager
         orig_render = tm.render_task_prompt
 
@@ -399,6 +429,10 @@ def get_rails(case):
 def _canon_reply(res):
     """-> {"role": "assistant"|"exception", "content": str, "exc": type name or None, "events": [event types]}"""
     msg = res
+    if isinstance(res, str):  # completion mode (`prompt=`): only the content is returned
+        msg = {"role": "assistant", "content": res}
+    elif isinstance(res, dict) and "role" not in res and str(res.get("type", "")).endswith("Exception"):
+        msg = {"role": "exception", "content": res}
     if hasattr(res, "response"):
         msg = res.response[0] if isinstance(res.response, list) else {"role": "assistant", "content": res.response}
     out = {"role": msg.get("role"), "content": msg.get("content"), "exc": None, "events": []}
@@ -420,21 +454,35 @@ async def _run(case):
     obs = []
     messages = []
     state = None if case.get("carry", "messages") == "messages" and case["ver"] == "1.0" else {}
+    gen = case.get("gen", "std") if case["ver"] == "1.0" else "std"
+    _STATE["gen"] = gen
+    front = []
+    if case.get("front") and case["ver"] == "1.0":
+        # a context message is not a chat message: in passthrough chat mode the request is the prompt, so only the system one
+        front = [FRONT_SYSTEM] if gen in PT_MODES else [FRONT_CONTEXT, FRONT_SYSTEM]
     for t in case["turns"]:
         _STATE["script"] = t
         _STATE["rec"] = rec = []
         o = {"steps": rec, "reply": None, "raised": None}
         try:
             with contextlib.redirect_stdout(io.StringIO()):
-                if case["ver"] == "1.0" and state is None:
-                    res = await rails.generate_async(messages=messages + [{"role": "user", "content": t["user"]}])
+                if gen == "ptp":
+                    res = await rails.generate_async(prompt=t["user"])
                     rep = _canon_reply(res)
-                    messages.append({"role": "user", "content": t["user"]})
-                    # the client keeps whatever `generate` returned in its history (as tests/utils.py::TestChat
-                    # does), also a {"role": "exception"} reply: the events-history cache is keyed by it
-                    messages.append(dict(res) if isinstance(res, dict) else {"role": "assistant", "content": rep["content"]})
+                elif case["ver"] == "1.0" and state is None:
+                    res = await rails.generate_async(messages=front + messages + [{"role": "user", "content": t["user"]}])
+                    rep = _canon_reply(res)
+                    if gen in PT_MODES and rep["role"] == "exception":
+                        # passthrough chat mode: the request IS the prompt, an {"role": "exception"} entry cannot be sent to
+                        # the LLM ("Unknown message type") - the client discards the failed exchange
+                        pass
+                    else:
+                        messages.append({"role": "user", "content": t["user"]})
+                        # the client keeps whatever `generate` returned in its history (as tests/utils.py::TestChat
+                        # does), also a {"role": "exception"} reply: the events-history cache is keyed by it
+                        messages.append(dict(res) if isinstance(res, dict) else {"role": "assistant", "content": rep["content"]})
                 else:
-                    res = await rails.generate_async(messages=[{"role": "user", "content": t["user"]}], state=state)
+                    res = await rails.generate_async(messages=front + [{"role": "user", "content": t["user"]}], state=state)
                     rep = _canon_reply(res)
                     state = res.state
             o["reply"] = rep
